@@ -52,6 +52,7 @@ func (r *checkRun) buildBounded() (string, error) {
 
 var boundedLine = regexp.MustCompile(`^BOUNDED check=(\S+) cases=(\d+) nontrivial=(\d+) exhaustive=(\w+) violations=(\d+) bound=(".*")$`)
 var witnessLine = regexp.MustCompile(`^WITNESS obligation=(\S+) input=("(?:[^"\\]|\\.)*") detail=("(?:[^"\\]|\\.)*") check=(\S+)$`)
+var otherProp = regexp.MustCompile(`^((?:C\d\d\+?)+)/`)
 var sampleLine = regexp.MustCompile(`^SAMPLE check=(\S+) (".*")$`)
 
 func (r *checkRun) runBounded(bp BoundedPlan) (map[string]any, []violation) {
@@ -74,6 +75,7 @@ func (r *checkRun) runBounded(bp BoundedPlan) (map[string]any, []violation) {
 	exhaustive := true
 	found := false
 	var samples []string
+	foreign := 0
 	for _, ln := range strings.Split(out, "\n") {
 		ln = strings.TrimSpace(ln)
 		if m := boundedLine.FindStringSubmatch(ln); m != nil {
@@ -92,6 +94,11 @@ func (r *checkRun) runBounded(bp BoundedPlan) (map[string]any, []violation) {
 			in, _ := strconv.Unquote(m[2])
 			det, _ := strconv.Unquote(m[3])
 			obl := "bounded/" + m[4] + "/" + m[1]
+			// obligations named after another property are reported by that property's check
+			if pm := otherProp.FindStringSubmatch(m[1]); pm != nil && !strings.Contains(pm[1], r.id) {
+				foreign++
+				continue
+			}
 			rp := r.writeReplayJSON(obl+"_"+shortHash(in), map[string]any{
 				"property": r.id, "obligation": obl, "label": "bounded", "input": in, "observed": det,
 				"replayed": true, "how": "the input was executed against the real code by the harness /verif/bounded (go test -overlay); re-run: ./check " + r.id + " " + r.tier,
@@ -108,6 +115,9 @@ func (r *checkRun) runBounded(bp BoundedPlan) (map[string]any, []violation) {
 	res["exhaustive"] = exhaustive
 	res["samples"] = samples
 	res["violations"] = len(viols)
+	if foreign > 0 {
+		res["witnesses_of_other_properties"] = foreign
+	}
 	if !found {
 		msg := "the bounded harness did not complete"
 		if runErr != nil {
